@@ -72,6 +72,17 @@ func runC09(c *Ctx) {
 					_ = k
 					return OK(bool1(!destDeniedImpl(s, cr)))
 				})
+				if kc := kcFor(s, cr); kc != nil && (specDestDenySig[s] || specDenyCrypto[cr]) {
+					// whatever else is wrong with the value, NewDestination never hands back a Destination
+					// declaring a prohibited pair
+					k := &keys_and_cert.KeysAndCert{KeyCertificate: kc, ReceivingPublic: newFakeKey(kc.CryptoSize()), SigningPublic: newFakeSPK(kc.SigningPublicKeySize())}
+					if pad := 384 - kc.CryptoSize() - kc.SigningPublicKeySize(); pad > 0 {
+						k.Padding = make([]byte, pad)
+					}
+					nd, derr := destination.NewDestination(k)
+					c.Check("destination_types_permitted", derr != nil || nd == nil, "NewDestination", [][]byte{i64(int64(s)), i64(int64(cr))}, "",
+						fmt.Sprintf("NewDestination returned a Destination declaring the prohibited pair (signing %d, crypto %d)", s, cr))
+				}
 				if kc := kcFor(s, cr); kc != nil && 384-kc.CryptoSize()-kc.SigningPublicKeySize() >= 0 {
 					c.Case(E_RIAllowed, [][]byte{i64(int64(s)), i64(int64(cr))}, func() Obs { return OK(bool1(!riDeniedImpl(s, cr))) })
 					if specRIDenySig[s] || specDenyCrypto[cr] {
